@@ -255,7 +255,9 @@ pub fn run_live(a: &Args) {
         if plan.crash == 3 { plan.crash = 1; }
         plan.scen.threads.truncate(3);
         if focus == "c20" { plan.skip = 1; }   // stacks that do not reference the principal mapping are left out
-        if case == 0 && plan.napp == 0 { plan.scen.lines.push("appmem 0 100 4096".into()); plan.napp = 1; }   // the application-memory flush must be among the fault points
+        if case == 0 && plan.napp == 0 { plan.scen.lines.push("appmem 0 100 4096".into()); plan.napp = 1; }
+        // ... and a region whose tail lies in the unmapped page behind its mapping (only a prefix can be copied)
+        if case == 1 { plan.scen.lines.push(format!("appmem 0 {} {}", 3 * 4096 - 0x180, 0x180 + 70_000)); plan.napp += 1; }   // the application-memory flush must be among the fault points
         let target = match Target::spawn(&plan.scen, &work) { Ok(t) => t, Err(e) => { out.notes.push(format!("spawn failed: {e}")); continue; } };
         // how many destination calls does a clean dump make?
         let total = { let mut cfg = configure(&mut rng, &plan, &target); let mut d = RecDest::new(vec![], 0, false); let _ = cfg.writer.dump(&mut d); d.calls };
@@ -282,12 +284,17 @@ pub fn run_live(a: &Args) {
         for (fail_at, chunk, snapshots) in runs {
             target.settle();
             let mut cfg = configure(&mut rng, &plan, &target);
+            // every other target: the plain run records a soft error (CPU information unreadable) - whatever the writer then does
+            // to the image late in the request must reach the destination too
+            let soft = fail_at.is_none() && chunk.is_none() && !snapshots && case % 2 == 0;
+            let mut fp = if soft { let mut c = minidump_writer::FailSpotName::testing_client(); c.set_enabled(minidump_writer::FailSpotName::CpuInfoFileOpen, true); out.count("run.with_a_soft_error"); Some(c) } else { None };
             let start = *rng.pick(&[0u64, 1, 4095, 12345]);
             // beyond the start: empty when an error is injected (C10's premise), otherwise old content longer than the image
             let tail = if fail_at.is_some() || snapshots { 0 } else { 600_000 };
             let dest0: Vec<u8> = (0..start + tail).map(|i| 0xA0u8.wrapping_add((i % 29) as u8)).collect();
             let mut dest = RecDest::new(dest0.clone(), start, snapshots); dest.fail_at = fail_at; dest.chunk = chunk;
             let res = quiet_catch(std::panic::AssertUnwindSafe(|| cfg.writer.dump(&mut dest).map_err(|e| format!("{e:?}"))));
+            if let Some(c) = fp.as_mut() { c.set_enabled(minidump_writer::FailSpotName::CpuInfoFileOpen, false); } drop(fp);
             let fin = dest.inner.get_ref().clone();
             let label = format!("fail_at {fail_at:?} chunk {chunk:?} start {start}");
             let mut l = Line::new("const"); l.u(case).u(1);
